@@ -32,6 +32,7 @@ def cov_of(U, lam):
 
 # ----------------------------------------------------------------------------- single trainers
 _SAL_COUNT = [0]
+_TRC = [0]
 _GOFF = [0]
 _LARGE = [False]
 _FORCE = [None]      # dedicated stratum: every trainer once with an integer and once with a boolean saliency
@@ -394,6 +395,13 @@ def trace_case(rng, tier, with_aligner=False):
         init = mm.permuted_partition_init(rng, data['labels'], K, blur=float(rng.choice([0.1, 0.3])))
     opts = mm.sample_options(rng, name, K, N, lead, with_aligner=False)
     opts.pop('inline_permutation_alignment', None)
+    _TRC[0] += 1
+    if lead and name not in mm.INTEGRATION and _TRC[0] % 3 == 0:
+        # one saliency for all leading indices (e.g. a per-frame weight shared by every frequency), handed over in
+        # broadcastable form (1, ..., N); with weights tied over the leading axis it is the same as the repeated array
+        opts['saliency'] = rng.uniform(0.2, 2.0, size=(1,) * len(lead) + (N,))
+        if len(lead) == 1 and _TRC[0] % 6 == 0:
+            opts['weight_constant_axis'] = [(-3,), (-3, -1)][(_TRC[0] // 6) % 2]
     aligner = None
     if with_aligner:
         opts['weight_constant_axis'] = [(-3,), (-3, -1), -3][int(rng.integers(0, 3))]
@@ -440,6 +448,8 @@ def eval_trace(rp, rng):
     if len(trace) != rp['iterations']:
         return 'fit(iterations=%d) performed %d M-steps' % (rp['iterations'], len(trace)), 'trace:count:%s' % name, None
     sal = opts.get('saliency')
+    if sal is not None:
+        sal = np.broadcast_to(np.asarray(sal), (*lead, N))          # references work on the repeated array
     salv = np.ones((*lead, N)) if sal is None else np.asarray(sal)
     eps = float(opts.get('affiliation_eps', 0.0))
     mask = opts.get('source_activity_mask')
